@@ -31,7 +31,7 @@ import (
 var Check = &mc.Check{
 	ID:    "C08",
 	Level: "model_checking",
-	Rule: "Range forms = {absent} + bytes=<first>-<last> for first,last in {empty,0..6,20-digit number} + malformed forms (no '=', other unit, letters, '--1', '1-2-3', multi-range, blanks); files of length 0..5, 8192, 8193 (small/big-file threshold), 16500, an index file, a sub-directory; methods GET/HEAD; options AcceptByteRange x Compress(+Accept-Encoding: gzip) x IndexNames x GenerateIndexPages; routes StaticFS and ctx.File; " +
+	Rule: "Range forms = {absent} + bytes=<first>-<last> for first,last in {empty,0..6,20-digit number} + malformed forms (no '=', other unit, letters, '--1', '1-2-3', multi-range, blanks); files of length 0..5, 8192, 8193 (small/big-file threshold), 16500, an index file, a sub-directory; methods GET/HEAD; options AcceptByteRange x Compress(+Accept-Encoding: gzip) x IndexNames x GenerateIndexPages; routes StaticFS, ctx.File and ctx.FileFromFS; file names with %, ?, #, blank (a%41.txt next to aA.txt, q?x.txt next to q, ...) requested through their encoded paths; " +
 		"per connection two consecutive identical requests (cold/warm cache) and, over a reduced set, every ordered pair of different Range forms on the same file; traversal targets; non-trivial = requests with a Range header or a non-regular target",
 	Run:    run,
 	Replay: replay,
@@ -46,6 +46,8 @@ type Req struct {
 	Path   string `json:"path"`
 	Range  string `json:"range,omitempty"` // "" = no header
 	Gzip   bool   `json:"gzip,omitempty"`
+	// Name: the file the (percent-encoded) Path names, when the name itself holds '%', '?', '#' or a blank
+	Name string `json:"name,omitempty"`
 }
 
 type Case struct {
@@ -54,7 +56,13 @@ type Case struct {
 	Reqs  []Req  `json:"reqs"`
 }
 
-var fileLens = map[string]int{"f0": 0, "f1": 1, "f2": 2, "f3": 3, "f4": 4, "f5": 5, "small8192": 8192, "big8193": 8193, "big16500": 16500}
+var fileLens = map[string]int{"f0": 0, "f1": 1, "f2": 2, "f3": 3, "f4": 4, "f5": 5, "small8192": 8192, "big8193": 8193, "big16500": 16500,
+	// legal file names that read differently as a request target, each next to the file it would be mistaken for
+	"a%41.txt": 6, "aA.txt": 7, "q?x.txt": 8, "q": 9, "h#x.txt": 10, "h": 11, "100%.txt": 12, "sp ace": 13}
+
+// specialNames: file name -> its encoding as a request path
+var specialNames = map[string]string{"a%41.txt": "/a%2541.txt", "q?x.txt": "/q%3Fx.txt", "h#x.txt": "/h%23x.txt", "100%.txt": "/100%25.txt", "sp ace": "/sp%20ace",
+	"aA.txt": "/aA.txt", "q": "/q", "h": "/h", "a%2541.txt": "/a%252541.txt"}
 
 func content(name string) []byte {
 	n, ok := fileLens[name]
@@ -123,6 +131,12 @@ func (w *worker) server(opt int, route string) *srvh.Server {
 			fs.IndexNames = []string{"index.htm", "index.html"} // the first name exists nowhere: the lookup has to move on
 		}
 		s.E.StaticFS("/", fs)
+	} else if route == "fromfs" {
+		fs := &app.FS{Root: w.root, AcceptByteRange: opt&1 != 0, CacheDuration: 40 * time.Millisecond}
+		s.E.Any("/*p", func(c context.Context, ctx *app.RequestContext) {
+			// the file is named by the handler, again selected by the (decoded) request path
+			ctx.FileFromFS("/"+filepath.Base(string(ctx.Path())), fs)
+		})
 	} else {
 		s.E.Any("/*p", func(c context.Context, ctx *app.RequestContext) {
 			// ctx.File serves the named file (the route decides which; the request path is only a selector here)
@@ -260,13 +274,19 @@ func (w *worker) exec(c *mc.Ctx, cs Case) {
 		}
 		// which file does the target name?
 		rel := strings.TrimPrefix(r.Path, "/")
+		if r.Name != "" {
+			rel = r.Name
+		}
 		data := content(rel)
 		isDir := rel == "" || rel == "sub" || rel == "sub/" || rel == "noindex" || rel == "noindex/"
 		// any target that is not in plain normal form: judged only by "whatever is served is a file under the root"
 		traversal := strings.Contains(r.Path, "..") || strings.ContainsAny(r.Path, "%\\") || strings.Contains(r.Path, "outside") || strings.Contains(r.Path, "//") || strings.Contains(r.Path, "/.") || (len(r.Path) > 1 && strings.HasSuffix(r.Path, "/") && !isDirPath(r.Path))
-		if cs.Route == "file" {
+		if cs.Route == "file" || cs.Route == "fromfs" {
 			isDir, traversal = false, false
 			data = content(filepath.Base(rel))
+		}
+		if r.Name != "" {
+			isDir, traversal = false, false
 		}
 		switch {
 		case traversal:
@@ -480,10 +500,29 @@ func run(c *mc.Ctx) {
 	c.Extra("range_forms", len(forms))
 	var files []string
 	for f := range fileLens {
+		if _, special := specialNames[f]; special {
+			continue // requested through their encoded paths below
+		}
 		files = append(files, f)
 	}
 	files = append(files, "index.html", "sub/inner.txt", "missing.txt")
 	var cases []Case
+	// file names with '%', '?', '#', ' ': the encoded request path names exactly that file (or nothing, for the last one)
+	for name, path := range specialNames {
+		for _, route := range []string{"static", "file", "fromfs"} {
+			for _, opt := range []int{0, 1} {
+				if route == "file" && opt != 0 {
+					continue
+				}
+				for _, rg := range []string{"", "bytes=1-2", "bytes=-1", "bytes=99-"} {
+					for _, m := range []string{"GET", "HEAD"} {
+						r := Req{Method: m, Path: path, Range: rg, Name: name}
+						cases = append(cases, Case{Opt: opt, Route: route, Reqs: []Req{r, r}})
+					}
+				}
+			}
+		}
+	}
 	for opt := 0; opt < 16; opt++ {
 		for _, route := range []string{"static", "file"} {
 			if route == "file" && opt != 0 {
@@ -529,7 +568,7 @@ func run(c *mc.Ctx) {
 									if (g1 || g2) && opt&2 == 0 {
 										continue
 									}
-									cases = append(cases, Case{Opt: opt, Route: route, Reqs: []Req{{m1, "/" + f, r1, g1}, {"GET", "/" + f, r2, g2}, {"GET", "/" + f, r1, g1}}})
+									cases = append(cases, Case{Opt: opt, Route: route, Reqs: []Req{{m1, "/" + f, r1, g1, ""}, {"GET", "/" + f, r2, g2, ""}, {"GET", "/" + f, r1, g1, ""}}})
 								}
 							}
 						}
